@@ -623,6 +623,53 @@ def run(prog, pid, clauses):
         out.append(ob("reset-precedes-every-statement-parse", not problems, dict(call_sites=sites, offenders=problems),
                       {view.methods[m].key for m in ("process_line", "parse_data") if m in view.methods}, pid))
 
+    if "ordered-iteration" in clauses:
+        # C14: the order of everything that reaches the result must not depend on the hash seed.  Strings hash
+        # differently in every process, so iterating over a set (or the result of a set operation) and letting the
+        # iteration order reach a list / dict / string makes the output order process dependent.  Obligation: in the
+        # library (outside the import-time token table) no `for` loop or comprehension iterates over an expression
+        # that is syntactically a set: a set display, set(...), frozenset(...), a set comprehension, or the result of
+        # the operators & | - ^ applied to such an expression or to a .keys() / .items() view.
+        def is_set_expr(n, fn_node, depth=0):
+            if depth > 4:
+                return False
+            if isinstance(n, (ast.Set, ast.SetComp)):
+                return True
+            if isinstance(n, ast.Call) and isinstance(n.func, ast.Name) and n.func.id in ("set", "frozenset"):
+                return True
+            if isinstance(n, ast.BinOp) and isinstance(n.op, (ast.BitAnd, ast.BitOr, ast.Sub, ast.BitXor)):
+                def viewish(x):
+                    return is_set_expr(x, fn_node, depth + 1) or (isinstance(x, ast.Call) and isinstance(x.func, ast.Attribute) and x.func.attr in ("keys", "items"))
+                return viewish(n.left) or viewish(n.right)
+            if isinstance(n, ast.Call) and isinstance(n.func, ast.Attribute) and n.func.attr in ("union", "intersection", "difference", "symmetric_difference"):
+                return True
+            if isinstance(n, ast.Name) and fn_node is not None:
+                binds = [st.value for st in ast.walk(fn_node) if isinstance(st, ast.Assign) and any(isinstance(t, ast.Name) and t.id == n.id for t in st.targets)]
+                return bool(binds) and all(is_set_expr(b, None, depth + 1) for b in binds)
+            return False
+        bad, funcs = [], set()
+        for mod, tree in prog.trees.items():
+            if not mod.startswith(PKG) or mod.endswith(".parsetab") or mod.endswith(".tokens"):
+                continue
+            for fn in ast.walk(tree):
+                if not isinstance(fn, (ast.FunctionDef, ast.AsyncFunctionDef)):
+                    continue
+                funcs.add("%s.%s" % (mod[len(PKG) + 1:], fn.name))
+                for n in ast.walk(fn):
+                    its = []
+                    if isinstance(n, ast.For):
+                        its.append(n.iter)
+                    elif isinstance(n, (ast.ListComp, ast.DictComp, ast.GeneratorExp)):
+                        its.extend(g.iter for g in n.generators)
+                    elif isinstance(n, ast.Call) and isinstance(n.func, ast.Name) and n.func.id in ("list", "tuple", "dict", "enumerate") and n.args:
+                        its.append(n.args[0])
+                    elif isinstance(n, ast.Call) and isinstance(n.func, ast.Attribute) and n.func.attr in ("join", "extend", "update") and n.args:
+                        its.append(n.args[0])
+                    for it in its:
+                        if is_set_expr(it, fn):
+                            bad.append("%s.%s line %d iterates over a set expression: %s" % (mod, fn.name, getattr(it, "lineno", n.lineno), ast.unparse(it)[:80]))
+        out.append(ob("result-order-independent-of-set-iteration", not bad, dict(offenders=sorted(set(bad)), functions_scanned=len(funcs)), funcs, pid))
+
     if "ply-cache-settings" in clauses:
         # C20: PLY validates the cached tables against the grammar signature and regenerates them when they do not
         # match - unless the caller opts out (optimize=True skips the check, a foreign tabmodule / picklefile reads
